@@ -42,3 +42,25 @@ Theorem C09_reject_line_events_are_the_reject_events : forall hl altf pol fuel c
   map fst (FlexV.RejectTok.rej_tokens_ln fuel hl altf pol c bol lines w) = FlexV.RejectTok.rej_tokens fuel hl altf pol c bol w.
 Proof. exact FlexV.C07VarProofs.rej_tokens_ln_events. Qed.
 Print Assumptions C09_reject_line_events_are_the_reject_events.
+
+(** ** the table yy_rule_can_match_eol (coq/EolTable.v) *)
+Require FlexV.EolTable.
+
+(** [can_nl] decides whether a pattern has a match containing a newline *)
+Theorem C09_can_match_eol_decided : forall r,
+  FlexV.EolTable.can_nl r = true <-> exists w, Matches r w /\ In FlexV.EolTable.NL w.
+Proof. exact FlexV.EolTable.can_nl_spec. Qed.
+Print Assumptions C09_can_match_eol_decided.
+
+(** an emitted table that passes [eol_ok] is set for every rule and EVERY text its head can match
+    (what the action is handed) containing a newline: the counting loop of the scanner looks at it *)
+Theorem C09_eol_table_covers_every_newline : forall csize rules tbl, FlexV.EolTable.eol_ok csize rules tbl = true ->
+  forall i r w, nth_error rules i = Some r -> Matches (FlexV.EolTable.head_re csize r) w -> In FlexV.EolTable.NL w -> nth_error tbl i = Some true.
+Proof. exact FlexV.EolTable.eol_ok_sound. Qed.
+Print Assumptions C09_eol_table_covers_every_newline.
+
+(** the witness handed to the harness when a flag is missing really is a match with a newline *)
+Theorem C09_newline_witness_is_a_match : forall r w,
+  FlexV.EolTable.nl_word r = Some w -> Matches r w /\ In FlexV.EolTable.NL w.
+Proof. exact FlexV.EolTable.nl_word_sound. Qed.
+Print Assumptions C09_newline_witness_is_a_match.
